@@ -187,6 +187,14 @@ Theorem C04_upper_right_middle : forall U B : mat,
 Proof. exact ur_middle_solves. Qed.
 Print Assumptions C04_upper_right_middle.
 
+(** its shortcut for mzd_trtri_upper(u) is what the recursive trtri model returns whenever
+    blocksize^2 < 2*L3 (every build: blocksize = min(sqrt L3, 2048)) *)
+Theorem C04_upper_right_middle_exact : forall (c : cfg) (U : mat) (n : nat), n <= blocksize c ->
+  (N.of_nat (blocksize c) * N.of_nat (blocksize c) < trtri_cut c)%N ->
+  let u := extract_u (msub U 0 0 n n) in trtri_upper_rec c u = Some (trtri_upper_simple u).
+Proof. exact ur_middle_trtri_exact. Qed.
+Print Assumptions C04_upper_right_middle_exact.
+
 (** ... and really depends on the stored diagonal *)
 Theorem C04_upper_right_reads_diagonal :
   exists c U B, wf U /\ wf B /\ nr U = nc U /\ nr U = nc B /\
@@ -296,4 +304,4 @@ Example C04_run_f :
   trsm_upper_left_rec_f c_mid 3 0 T130 Bl = trsm_upper_left T130 Bl /\
   trsm_upper_right_rec_f c_rec 0 T130d Br = trsm_upper_right T130d Br /\
   trsm_lower_right_rec_f c_rec 0 T130 Br = trsm_lower_right T130 Br.
-Proof. repeat split; vm_compute; reflexivity. Qed.
+Proof. split; [|split; [|split]]; vm_compute; reflexivity. Qed.
